@@ -1,4 +1,5 @@
 import Kio.Proofs.SpecEq
+import Kio.Proofs.SpecEqGenerated
 import Kio.Proofs.Codec
 import Kio.Proofs.Float
 /-!
@@ -57,5 +58,19 @@ theorem impl_eq_spec_counterexample :
     ∃ (env : Env) (s : Schema) (v : Value), env.time = TimeCfg.repaired ∧ s.wf env = true ∧
       s.valueOk env v = true ∧ (s.write env v).toOption ≠ Spec.enc s v :=
   Kio.Schema.write_eq_spec_counterexample
+
+end Kio.C02
+
+namespace Kio.C02
+open Kio
+
+/-- C02 for the shipped classes (regenerated table): the side conditions `tagArrOk` and
+    `fewFields` are kernel-checked on all of them, so the statement is unconditional there -/
+theorem shipped (env : Env) (ht : env.time = TimeCfg.repaired) (s : Schema)
+    (hs : s ∈ Generated.allClasses) (hwf : s.wf env = true) (v : Value)
+    (hv : s.valueOk env v = true) : (enc env s v).toOption = Spec.enc s v := by
+  obtain ⟨_, hw⟩ := Kio.wf_buildable env s hwf
+  unfold enc; rw [hw]
+  exact Kio.generated_write_eq_spec env ht float_exact s hs hwf v hv
 
 end Kio.C02
